@@ -13,7 +13,7 @@ def Yields {α : Type} (p : (α → Prog) → Prog) (P : α → Prop) : Prop :=
   ∀ (k : α → Prog) (src : Src) (ts : TS),
     (∃ a, P a ∧ ∃ src' used kept toks ov, used ≠ [] ∧
         (p k).run src ts = ((k a).run src' ts).after used kept toks [] ov) ∨
-    (∃ e, ((p k).run src ts).res = .error e ∧ (e.isInvalid = true ∨ e = .fuel))
+    (∃ e, ((p k).run src ts).res = .error e ∧ (e.isInvalid = true ∨ e = .fuel) ∧ ((p k).run src ts).evs = [])
 
 theorem after_after (o : Out) (u1 k1 u2 k2 : List UInt64) (t1 t2 : List Tok) (e1 e2 : List Ev) (ov1 ov2 : Bool) :
     (o.after u1 k1 t1 e1 ov1).after u2 k2 t2 e2 ov2 = o.after (u2 ++ u1) (k2 ++ k1) (t2 ++ t1) (e2 ++ e1) (ov2 || ov1) := by
@@ -62,14 +62,14 @@ theorem Yields.bind {α β : Type} {p : (α → Prog) → Prog} {P : α → Prop
     (hp : Yields p P) (hq : ∀ a, P a → Yields (q a) Q) : Yields (fun k => p (fun a => q a k)) Q := by
   intro k src ts
   rcases hp (fun a => q a k) src ts with ⟨a, ha, src1, u1, k1, t1, ov1, hne, hrun⟩ | h
-  · rcases hq a ha k src1 ts with ⟨b, hb, src2, u2, k2, t2, ov2, _, hrun2⟩ | ⟨e, he, hk⟩
+  · rcases hq a ha k src1 ts with ⟨b, hb, src2, u2, k2, t2, ov2, _, hrun2⟩ | ⟨e, he, hk, hev⟩
     · left
       refine ⟨b, hb, src2, u1 ++ u2, k1 ++ k2, t1 ++ t2, ov1 || ov2, by simp [hne], ?_⟩
       have h1 := hrun
       rw [h1, hrun2, after_after0]
     · right
       have h1 := hrun
-      exact ⟨e, by rw [h1]; simpa [Out.after] using he, hk⟩
+      exact ⟨e, by rw [h1]; simpa [Out.after] using he, hk, by rw [h1]; simpa [Out.after] using hev⟩
   · exact Or.inr h
 
 /-- a group (never discarded) around a primitive whose result is handed on as a `Val` -/
@@ -78,7 +78,7 @@ theorem Yields.group {α : Type} {p : (α → Prog) → Prog} {P : α → Prop} 
     Yields (fun k => Prog.group l s (p fun a => .ret (enc a)) (fun _ => false) (fun v => k v))
       (fun v => ∃ a, P a ∧ v = enc a) := by
   intro k src ts
-  rcases h (fun a => .ret (enc a)) src ts with ⟨a, ha, src1, u1, k1, t1, ov1, hne, hrun⟩ | ⟨e, he, hk⟩
+  rcases h (fun a => .ret (enc a)) src ts with ⟨a, ha, src1, u1, k1, t1, ov1, hne, hrun⟩ | ⟨e, he, hk, hev⟩
   · left
     have h1 := hrun
     refine ⟨enc a, ⟨a, ha, rfl⟩, src1, u1, k1, .opn l s :: t1 ++ [.cls false], ov1, hne, ?_⟩
@@ -87,18 +87,23 @@ theorem Yields.group {α : Type} {p : (α → Prog) → Prog} {P : α → Prop} 
     | nil => exact absurd rfl hne
     | cons x xs => simp [Out.after, Out.ofRes]
   · right
-    refine ⟨e, ?_, hk⟩
-    simp only [Prog.run]
     have he' := he
-    split
-    · rename_i e' he2; rw [he'] at he2; cases he2; exact he'
-    · rename_i v hv; rw [he'] at hv; cases hv
+    have hev' := hev
+    refine ⟨e, ?_, hk, ?_⟩
+    · simp only [Prog.run]
+      split
+      · rename_i e' he2; rw [he'] at he2; cases he2; exact he'
+      · rename_i v hv; rw [he'] at hv; cases hv
+    · simp only [Prog.run]
+      split
+      · exact hev'
+      · rename_i v hv; rw [he'] at hv; cases hv
 
 theorem yields_uintNoReject (max : UInt64) : Yields (uintNoReject max) (fun u => u ≤ max) := by
   intro k src ts
   simp only [uintNoReject, run_draw_group]
   cases h : src.next (len64 max) with
-  | none => right; exact ⟨_, rfl, Or.inl rfl⟩
+  | none => right; exact ⟨_, rfl, Or.inl rfl, rfl⟩
   | some r =>
     obtain ⟨u, src'⟩ := r
     left
@@ -112,12 +117,12 @@ theorem yields_uintNoReject (max : UInt64) : Yields (uintNoReject max) (fun u =>
 theorem yields_uintUnbiased (max : UInt64) : ∀ fuel, Yields (fun k => uintUnbiased max k fuel) (fun u => u ≤ max) := by
   intro fuel
   induction fuel with
-  | zero => intro k src ts; right; exact ⟨.fuel, by simp [uintUnbiased, Prog.run, Out.ofRes], Or.inr rfl⟩
+  | zero => intro k src ts; right; exact ⟨.fuel, by simp [uintUnbiased, Prog.run, Out.ofRes], Or.inr rfl, by simp [uintUnbiased, Prog.run, Out.ofRes]⟩
   | succ n ih =>
     intro k src ts
     simp only [uintUnbiased, run_draw_group]
     cases h : src.next (len64 max) with
-    | none => right; exact ⟨_, rfl, Or.inl rfl⟩
+    | none => right; exact ⟨_, rfl, Or.inl rfl, rfl⟩
     | some r =>
       obtain ⟨u, src'⟩ := r
       simp only [vu_uv]
@@ -126,11 +131,11 @@ theorem yields_uintUnbiased (max : UInt64) : ∀ fuel, Yields (fun k => uintUnbi
         simp only [hle, if_true]
         exact ⟨u, hle, src', _, _, _, _, by simp, rfl⟩
       · simp only [hle, if_false]
-        rcases ih k src' ts with ⟨a, ha, s2, u2, k2, t2, o2, hne2, heq⟩ | ⟨e, he, hk⟩
+        rcases ih k src' ts with ⟨a, ha, s2, u2, k2, t2, o2, hne2, heq⟩ | ⟨e, he, hk, hev⟩
         · left
           refine ⟨a, ha, s2, _, _, _, _, ?_, by rw [heq]; exact after_after0 _ _ _ _ _ _ _ _ _⟩ <;> simp
         · right
-          exact ⟨e, by simpa using he, hk⟩
+          exact ⟨e, by simpa using he, hk, by simpa using hev⟩
 
 /-- what `genUintNBiased` promises about its two flags: "left overflow" only with the value 0,
     "right overflow" only with the value `max` -/
@@ -142,12 +147,12 @@ theorem yields_uintBiasedLoop (max : UInt64) (n bitlen : Nat) : ∀ fuel,
       (fun x => x.1 ≤ max ∧ FlagsOK 0 max x) := by
   intro fuel
   induction fuel with
-  | zero => intro k src ts; right; exact ⟨.fuel, by simp [uintBiasedLoop, Prog.run, Out.ofRes], Or.inr rfl⟩
+  | zero => intro k src ts; right; exact ⟨.fuel, by simp [uintBiasedLoop, Prog.run, Out.ofRes], Or.inr rfl, by simp [uintBiasedLoop, Prog.run, Out.ofRes]⟩
   | succ m ih =>
     intro k src ts
     simp only [uintBiasedLoop, run_draw_group]
     cases h : src.next bitlen with
-    | none => right; exact ⟨_, rfl, Or.inl rfl⟩
+    | none => right; exact ⟨_, rfl, Or.inl rfl, rfl⟩
     | some r =>
       obtain ⟨u, src'⟩ := r
       simp only [vu_uv]
@@ -165,11 +170,11 @@ theorem yields_uintBiasedLoop (max : UInt64) (n bitlen : Nat) : ∀ fuel,
           · intro hl; simp only [Bool.and_eq_true, beq_iff_eq] at hl; exact hl.1
           · intro hr; simp only [Bool.and_eq_true, beq_iff_eq] at hr; exact hr.1
         · simp only [hle, if_false]
-          rcases ih k src' ts with ⟨a, ha, s2, u2, k2, t2, o2, hne2, heq⟩ | ⟨e, he, hk⟩
+          rcases ih k src' ts with ⟨a, ha, s2, u2, k2, t2, o2, hne2, heq⟩ | ⟨e, he, hk, hev⟩
           · left
             refine ⟨a, ha, s2, _, _, _, _, ?_, by rw [heq]; exact after_after0 _ _ _ _ _ _ _ _ _⟩ <;> simp
           · right
-            exact ⟨e, by simpa using he, hk⟩
+            exact ⟨e, by simpa using he, hk, by simpa using hev⟩
 
 theorem yields_uintBiased (ft : FT) (max : UInt64) (fuel : Nat) :
     Yields (fun (k : UInt64 × Bool × Bool → Prog) => uintBiased ft max fuel (fun u l r => k (u, l, r)))
@@ -177,15 +182,15 @@ theorem yields_uintBiased (ft : FT) (max : UInt64) (fuel : Nat) :
   intro k src ts
   simp only [uintBiased, run_draw_group]
   cases h : src.next 53 with
-  | none => right; exact ⟨_, rfl, Or.inl rfl⟩
+  | none => right; exact ⟨_, rfl, Or.inl rfl, rfl⟩
   | some r =>
     obtain ⟨w, src'⟩ := r
     simp only [Bool.false_eq_true, if_false]
-    rcases yields_uintBiasedLoop max _ _ fuel k src' ts with ⟨a, ha, s2, u2, k2, t2, o2, hne2, heq⟩ | ⟨e, he, hk⟩
+    rcases yields_uintBiasedLoop max _ _ fuel k src' ts with ⟨a, ha, s2, u2, k2, t2, o2, hne2, heq⟩ | ⟨e, he, hk, hev⟩
     · left
       refine ⟨a, ha, s2, _, _, _, _, ?_, by rw [heq]; exact after_after0 _ _ _ _ _ _ _ _ _⟩ <;> simp
     · right
-      exact ⟨e, by simpa using he, hk⟩
+      exact ⟨e, by simpa using he, hk, by simpa using hev⟩
 
 /-- `genUintN`, biased or not: the value is `≤ max`, the flags only at the ends -/
 theorem yields_uintN_flags (ft : FT) (max : UInt64) (bias : Bool) (fuel : Nat) :
@@ -240,7 +245,7 @@ theorem yields_uintRange_any (ft : FT) (min max : UInt64) (bias : Bool) (fuel : 
       (uintRange ft min max bias fuel (fun u l r => k (u, l, r))).run src ts = ((k a).run src' ts).after used kept toks [] ov) ∨
     (∃ e, ((uintRange ft min max bias fuel (fun u l r => k (u, l, r))).run src ts).res = .error e) := by
   by_cases hmm : min ≤ max
-  · rcases yields_uintRange ft min max bias fuel hmm k src ts with ⟨a, _, s', u', k', t', o', _, hr⟩ | ⟨e, he, _⟩
+  · rcases yields_uintRange ft min max bias fuel hmm k src ts with ⟨a, _, s', u', k', t', o', _, hr⟩ | ⟨e, he, _, _⟩
     · exact Or.inl ⟨a, s', u', k', t', o', hr⟩
     · exact Or.inr ⟨e, he⟩
   · right
